@@ -43,6 +43,17 @@ def floatOfRat' (q : Rat) : Float :=
 def num? (s : String) : Option Rat := (unhex64 s).map ratOfBits
 def outNum (q : Rat) : String := hexOfFloat (floatOfRat' q)
 
+structure TextCase where
+  unitsTok : String := ""
+  density : Rat := 1
+  water : Rat := 1
+  sum0 : Rat := 0
+  pass2 : Option (Rat × Nat × Rat) := none      -- density, density_iterations, kgw_kgs of a later call in the density loop
+  elts : List (String × Rat) := []
+  masters : List (String × String) := []        -- name ↦ number text or formula
+  minors : List String := []
+  lines : List (List Char) := []
+
 structure ConvCase where
   solUnit : Units.Unit := Units.Unit.molPerKgw
   density : Rat := 1
@@ -59,6 +70,7 @@ structure MixCase where
   lines : List (Int × Rat) := []
 
 structure State where
+  txt : TextCase := {}
   conv : ConvCase := {}
   mix : MixCase := {}
 
@@ -103,6 +115,87 @@ def step (st : State) (line : String) : State × List String :=
                         masterGfw := mgv, minor := minor == "1" }
       ({ st with conv := { st.conv with comps := st.conv.comps ++ [c] } }, [])
     | _, _, _, _, _, _, _ => (st, ["bad-comp"])
+  | ["cu", parser, tok, alk, compat, dflt] =>
+    match unhexStr tok, unhexStr dflt with
+    | some tok, some dflt =>
+      match Txt.checkUnits (parser == "1") tok.toList (alk == "1") (compat == "1") dflt.toList with
+      | some r => (st, [s!"CU {hexStr (String.ofList r)}"])
+      | none => (st, ["CU ERR"])
+    | _, _ => (st, ["bad-cu"])
+  | ["tables"] =>
+    (st, Txt.replacements.map (fun p => s!"REPL {hexStr p.1} {hexStr p.2}") ++
+         Txt.unitTable.map (fun u => s!"UNIT {hexStr u}") ++
+         documentedSpellings.map (fun p => s!"SPELL {hexStr p.1} {hexStr p.2.str}") ++ ["E"])
+  | ["gfwf", f] =>
+    -- gfw of a formula from the element weights given so far (`elt` lines of the text case)
+    match unhexStr f with
+    | some f =>
+      let elt : String → Option Rat := fun e => (st.txt.elts.find? (·.1 == e)).map (·.2)
+      match gfwOfFormula elt f with
+      | some g => (st, [s!"GFW {outNum g}"])
+      | none => (st, ["GFW ERR"])
+    | none => (st, ["bad-gfwf"])
+  | ["text", u, dens, water, sum0] =>
+    match unhexStr u, num? dens, num? water, num? sum0 with
+    | some u, some d, some w, some s0 => ({ st with txt := { unitsTok := u, density := d, water := w, sum0 := s0 } }, [])
+    | _, _, _, _ => (st, ["bad-text"])
+  | ["pass2", dens, iter, kk] =>
+    match num? dens, iter.toNat?, num? kk with
+    | some d, some it, some k => ({ st with txt := { st.txt with pass2 := some (d, it, k) } }, [])
+    | _, _, _ => (st, ["bad-pass2"])
+  | ["telt", e, g] =>
+    match unhexStr e, num? g with
+    | some e, some g => ({ st with txt := { st.txt with elts := st.txt.elts ++ [(e, g)] } }, [])
+    | _, _ => (st, ["bad-telt"])
+  | ["master", n, v] =>
+    match unhexStr n, unhexStr v with
+    | some n, some v => ({ st with txt := { st.txt with masters := st.txt.masters ++ [(n, v)] } }, [])
+    | _, _ => (st, ["bad-master"])
+  | ["minor", n] =>
+    match unhexStr n with
+    | some n => ({ st with txt := { st.txt with minors := n :: st.txt.minors } }, [])
+    | none => (st, ["bad-minor"])
+  | ["tline", l] =>
+    match unhexStr l with
+    | some l => ({ st with txt := { st.txt with lines := st.txt.lines ++ [l.toList] } }, [])
+    | none => (st, ["bad-tline"])
+  | ["cell", h, d, u] =>
+    match unhexStr h, unhexStr d, unhexStr u with
+    | some h, some d, some u =>
+      ({ st with txt := { st.txt with lines := st.txt.lines ++ [Txt.spreadCell h.toList d.toList u.toList] } }, [])
+    | _, _, _ => (st, ["bad-cell"])
+  | ["gotext"] =>
+    let c := st.txt
+    let elt : String → Option Rat := fun e => (c.elts.find? (·.1 == e)).map (·.2)
+    -- master gfw: a number, or a formula weighed with the element table (tidy_species: compute_gfw(gfw_formula))
+    let master : String → Option Rat := fun n =>
+      match c.masters.find? (·.1 == n) with
+      | none => none
+      | some (_, v) => match Txt.scanNum v.toList with
+        | some x => if Txt.isDigitTok v.toList then some x else gfwOfFormula elt v
+        | none => gfwOfFormula elt v
+    -- `-units` of the block: check_units(token, false, false, "mMol/kgw", false); default mMol/kgw when absent
+    let dflt : Option Units.Unit :=
+      if c.unitsTok.isEmpty then some ⟨.milli, .mol, .perKgw⟩
+      else (Txt.checkUnits false c.unitsTok.toList false false []).bind Units.Unit.ofChars
+    match dflt with
+    | none => ({ st with txt := {} }, ["bad-units", "E"])
+    | some du =>
+      let parsed := c.lines.map fun l => (Txt.readCompLine l).bind (compOfText master (fun n => c.minors.contains n) du)
+      if parsed.any (·.isNone) then ({ st with txt := {} }, ["bad-line", "E"]) else
+      let comps := (readComps (parsed.filterMap id)).toList.map (·.2)
+      let p : Params := { solUnit := du, density := c.density, water := c.water, sum0 := c.sum0, elt := elt }
+      let r := convertUnits p ∅ comps
+      let after := comps.map (·.afterPass du.den c.density elt)
+      let out1 := [s!"R {r.err} {outNum r.massWater} {hexStr du.str}"] ++
+        after.map (fun cc => s!"C {hexStr cc.name} {outNum cc.conc} {hexStr cc.unit.str} {hexStr cc.asName} {outNum cc.gfw}") ++
+        r.totals.toList.map (fun kv => s!"T {hexStr kv.1} {outNum kv.2}")
+      let out2 := match c.pass2 with
+        | none => []
+        | some (d2, it, kk) =>
+          let p2 : Params := { p with density := d2, densityIter := it, kgwKgs := kk }
+          (convertUnits p2 r.totals after).totals.toList.map (fun kv => s!"U {hexStr kv.1} {outNum kv.2}")
+      ({ st with txt := {} }, out1 ++ out2 ++ ["E"])
   | ["go"] =>
     let c := st.conv
     let elt : String → Option Rat := fun e => (c.elts.find? (·.1 == e)).map (·.2)
